@@ -146,6 +146,11 @@ def run(chk):
     found = set()
     exact_family(chk, rng, 90 if q else 1500, found)
     upgrad_ladder(chk, rng, 25 if q else 300, found)
+    # UPGrad at the ends of the dtype's range: c1 = c2 = 2^e (1, ..., 1) is the homogeneity instance of the identity
+    for i in range(4 if q else 40):
+        c = R.gen_case(rng, "UPGrad", mmax=4, nmax=5, cat=rng.choice(["conflict", "generic", "antiparallel"]), boundary=False)
+        if len(c["J"]) >= 2 and float(A.sigma_max(c["J"])) > 0:
+            R.extreme_scales(chk, found, c, {"f64": 1e-6, "f32": 5e-3}, "C09", dts=R.dtypes_for(c))
     # correspondence: model on diag(c) J for the deterministic members
     cases = []
     for i in range(24 if q else 300):
@@ -169,6 +174,9 @@ def run(chk):
 
 
 def replay(chk, obj):
+    if obj.get("kind") == "extreme_scale":
+        c = {"name": obj["aggregator"], "params": A.unjson(obj["params"]), "J": A.unjson(obj["J"]), "cat": obj.get("cat", "")}
+        return R.extreme_scales(chk, set(), c, {"f64": 1e-6, "f32": 5e-3}, "C09", dts=(obj.get("dtype", "f64"),))
     name = obj["aggregator"]
     p, J = A.unjson(obj["params"]), A.unjson(obj["J"])
     c1, c2 = A.unjson(obj["c1"]), A.unjson(obj["c2"])
